@@ -21,8 +21,11 @@ namespace PV.Prune
 abbrev Rx := Str → Bool
 
 /-! ### simplifyFunc -/
-def anonNs : Str := Str.ofString "(anonymous namespace)"
-def operatorCall : Str := Str.ofString "operator()"
+/-- "(anonymous namespace)" as bytes (a literal, so that proofs can compute with it). -/
+def anonNs : Str :=
+  [40, 97, 110, 111, 110, 121, 109, 111, 117, 115, 32, 110, 97, 109, 101, 115, 112, 97, 99, 101, 41]
+/-- "operator()" as bytes. -/
+def operatorCall : Str := [111, 112, 101, 114, 97, 116, 111, 114, 40, 41]
 
 def hasPrefix : Str → Str → Bool
   | [], _ => true
@@ -40,12 +43,13 @@ def cutAtParen : Nat → Str → Str
     else if b == 40 then []
     else b :: cutAtParen 0 r
 
+/-- `strings.TrimPrefix(f, ".")` -/
+def trimDot : Str → Str
+  | 46 :: r => r
+  | f => f
+
 /-- `simplifyFunc` -/
-def simplifyFunc (f : Str) : Str :=
-  let name := match f with
-    | 46 :: r => r        -- strings.TrimPrefix(f, ".")
-    | _ => f
-  cutAtParen 0 name
+def simplifyFunc (f : Str) : Str := cutAtParen 0 (trimDot f)
 
 /-! ### Prune -/
 
